@@ -540,6 +540,9 @@ def check(fx, rep, tier):
                     # total only behind the shift<256 / non-zero divisor guards, which C09's R09.3 checks
                     ok_dep = dependency_holds(fx, "C09")
                     rep.oblige(ok_dep, "R01.1", key, w, f"256-bit `{opn}` in `{name}` panics for a shift >= 256 / a zero divisor and the guards that C09 checks do not hold", sample={"rule": "R01.1", "site": key, "class": "discharged-by:C09"})
+                elif opn == "Neg" and t["args"] and t["args"][0].get("k") == "const":
+                    # the negation of a named constant (`-I256::ONE`): no run-time operand reaches it
+                    rep.oblige(True, "R01.1", key, w, "", sample=None)
                 else:
                     row = rows.get(key)
                     if row is not None:
